@@ -74,51 +74,66 @@ theorem matchIndexStoreThenLoad_inv (ds : List Dir) (h : matchIndexStoreThenLoad
     exact ⟨_, _, rfl⟩
   · simp at h
 
-theorem peep_of_go : ∀ (fuel : Nat) (ds : List Dir), ds.length ≤ fuel → ∃ sts, Peep ds (peepholeGo fuel ds) sts := by
+/-- The statuses the pass assigns (mirrors `peepholeGo`). -/
+def peepStGo : Nat → List Dir → List PSt
+  | 0, _ => []
+  | _, [] => []
+  | fuel + 1, d :: rest =>
+    if matchBranchZero (d :: rest) then
+      match rest with
+      | _ :: rest' => .brDel :: .keep :: peepStGo fuel rest'
+      | [] => [.keep]
+    else if matchStoreThenLoad (d :: rest) then .w2a :: .w2d :: peepStGo fuel (rest.drop 1)
+    else if matchIndexStoreThenLoad (d :: rest) then .w3a :: .w3b :: .w3c :: .w3d :: peepStGo fuel (rest.drop 3)
+    else .keep :: peepStGo fuel rest
+
+def peepSt (ds : List Dir) : List PSt := peepStGo ds.length ds
+
+theorem peep_of_go : ∀ (fuel : Nat) (ds : List Dir), ds.length ≤ fuel → Peep ds (peepholeGo fuel ds) (peepStGo fuel ds) := by
   intro fuel
   induction fuel using Nat.strongRecOn with
   | _ fuel ih =>
     intro ds hlen
     cases ds with
-    | nil => cases fuel <;> exact ⟨[], by unfold peepholeGo; exact Peep.nil⟩
+    | nil => cases fuel <;> (unfold peepholeGo peepStGo; exact Peep.nil)
     | cons d rest =>
       cases fuel with
       | zero => simp at hlen
       | succ fuel =>
-        unfold peepholeGo
+        unfold peepholeGo peepStGo
         simp only [List.length_cons] at hlen
         by_cases h1 : matchBranchZero (d :: rest) = true
-        · rw [if_pos h1]
+        · rw [if_pos h1, if_pos h1]
           obtain ⟨l, r, rest', he⟩ := matchBranchZero_inv _ h1
           simp only [List.cons.injEq] at he
           obtain ⟨hd, hr⟩ := he
           subst hd; subst hr
-          obtain ⟨sts, hp⟩ := ih fuel (Nat.lt_succ_self _) rest' (by simp only [List.length_cons] at hlen; omega)
-          exact ⟨_, Peep.br l r rest' _ sts hp⟩
-        · rw [if_neg h1]
+          have hp := ih fuel (Nat.lt_succ_self _) rest' (by simp only [List.length_cons] at hlen; omega)
+          exact Peep.br l r rest' _ _ hp
+        · rw [if_neg h1, if_neg h1]
           by_cases h2 : matchStoreThenLoad (d :: rest) = true
-          · rw [if_pos h2]
+          · rw [if_pos h2, if_pos h2]
             obtain ⟨x, rest', he⟩ := matchStoreThenLoad_inv _ h2
             simp only [List.cons.injEq] at he
             obtain ⟨hd, hr⟩ := he
             subst hd; subst hr
-            obtain ⟨sts, hp⟩ := ih fuel (Nat.lt_succ_self _) rest' (by simp only [List.length_cons] at hlen; omega)
-            exact ⟨_, by simpa using Peep.w2 x rest' _ sts hp⟩
-          · rw [if_neg h2]
+            have hp := ih fuel (Nat.lt_succ_self _) rest' (by simp only [List.length_cons] at hlen; omega)
+            simpa using Peep.w2 x rest' _ _ hp
+          · rw [if_neg h2, if_neg h2]
             by_cases h3 : matchIndexStoreThenLoad (d :: rest) = true
-            · rw [if_pos h3]
+            · rw [if_pos h3, if_pos h3]
               obtain ⟨x, rest', he⟩ := matchIndexStoreThenLoad_inv _ h3
               simp only [List.cons.injEq] at he
               obtain ⟨hd, hr⟩ := he
               subst hd; subst hr
-              obtain ⟨sts, hp⟩ := ih fuel (Nat.lt_succ_self _) rest' (by simp only [List.length_cons] at hlen; omega)
-              exact ⟨_, by simpa using Peep.w3 x rest' _ sts hp⟩
-            · rw [if_neg h3]
-              obtain ⟨sts, hp⟩ := ih fuel (Nat.lt_succ_self _) rest (by omega)
-              exact ⟨_, Peep.keep d rest _ sts hp⟩
+              have hp := ih fuel (Nat.lt_succ_self _) rest' (by simp only [List.length_cons] at hlen; omega)
+              simpa using Peep.w3 x rest' _ _ hp
+            · rw [if_neg h3, if_neg h3]
+              have hp := ih fuel (Nat.lt_succ_self _) rest (by omega)
+              exact Peep.keep d rest _ _ hp
 
 /-- **The pass is an instance of `Peep`.** -/
-theorem peephole_peep (ds : List Dir) : ∃ sts, Peep ds (peephole ds) sts :=
+theorem peephole_peep (ds : List Dir) : Peep ds (peephole ds) (peepSt ds) :=
   peep_of_go ds.length ds (Nat.le_refl _)
 
 /-! ### Index map and local structure -/
@@ -615,6 +630,31 @@ theorem opr_keep (j k : Nat) (h : ds[j]? = some (.opr k)) : sts[j]? = some .keep
   cases s <;> simp only at hf
   · rfl
   all_goals (rw [h] at hf; simp at hf)
+
+include hp in
+theorem data_keep (j : Nat) (v : Int) (h : ds[j]? = some (.data v)) : sts[j]? = some .keep := by
+  have hlt : j < sts.length := by rw [hp.length]; exact (List.getElem?_eq_some_iff.mp h).1
+  have hf := hp.fwd j
+  unfold Fwd at hf
+  rw [List.getElem?_eq_getElem hlt] at hf ⊢
+  generalize sts[j] = s at hf
+  cases s <;> simp only at hf
+  · rfl
+  all_goals (rw [h] at hf; simp at hf)
+
+include hp in
+/-- A DATA word is kept, at the image of its index. -/
+theorem data_get (j : Nat) (v : Int) (h : ds[j]? = some (.data v)) : ds'[phi sts j]? = some (.data v) := by
+  rw [hp.kept_get j _ (data_keep hp j v h) rfl]; exact h
+
+include hp in
+/-- A label is kept, and the next index maps to the index after its image. -/
+theorem label_get (j : Nat) (k : LabelKind) (n : String) (h : ds[j]? = some (.label k n)) :
+    ds'[phi sts j]? = some (.label k n) ∧ phi sts (j + 1) = phi sts j + 1 := by
+  have hk := label_keep hp j k n h
+  refine ⟨by rw [hp.kept_get j _ hk rfl]; exact h, ?_⟩
+  rw [phi_succ sts j _ hk]
+  rfl
 
 include hp hds hds' in
 theorem exit_peep (c c' : Cfg) (io : Isa.IOSt) (code : Word) (h : Exit env c io code) (hr : Rel ds sts c c') :
